@@ -17,6 +17,7 @@ import (
 	"github.com/pion/transport/v3/udp"
 	"verifharness/internal/gstate"
 	"verifharness/internal/res"
+	"verifharness/internal/sockq"
 	"verifharness/internal/vn"
 )
 
@@ -72,9 +73,19 @@ type client struct {
 	openConn int32 // number of harness-side open connections for this remote
 }
 
+// listenerPort is the port of the listener of the running case (one case at a time per process).
+var listenerPort int
+
+// readLoopIdle: the listener's kernel receive queue is empty AND its read loop is parked in the kernel, twice in a row.
+// (The goroutine state alone is not enough: after sendto returns, the datagram sits in the socket queue until the
+// netpoller wakes the read loop, which still shows "IO wait" meanwhile.)
 func readLoopIdle() bool {
 	ok := 0
-	for t0 := time.Now(); time.Since(t0) < 5*time.Second; {
+	for t0 := time.Now(); time.Since(t0) < 10*time.Second; {
+		if n, found := sockq.Pending(listenerPort); !found || n != 0 {
+			ok = 0
+			continue
+		}
 		ps := gstate.ParkedIn(gstate.Snapshot(), "udp.(*listener).readLoop")
 		idle := len(ps) >= 1
 		for _, g := range ps {
@@ -97,6 +108,9 @@ func readLoopIdle() bool {
 // libraryQuiet: every goroutine that is inside package udp or packetio is parked (read loop in the kernel, acceptor in
 // Accept, connection readers in Buffer.Read): nothing is in flight inside the listener.
 func libraryQuiet() bool {
+	if n, found := sockq.Pending(listenerPort); !found || n != 0 {
+		return false
+	}
 	for _, g := range gstate.Snapshot() {
 		if (g.Has("pion/transport/v3/udp.") || g.Has("pion/transport/v3/packetio.")) && !gstate.Blocked(g.State) {
 			return false
@@ -118,6 +132,7 @@ func runCase(c *dcase, r *res.Result) (string, string) {
 		return "", "inconclusive: listen: " + err.Error()
 	}
 	laddr := l.Addr().(*net.UDPAddr)
+	listenerPort = laddr.Port
 	rng := rand.New(rand.NewSource(c.Seed))
 	var vmu sync.Mutex
 	vkey, vdesc := "", ""
